@@ -12,5 +12,6 @@ CONSTANTS Bug = "none"  MaxLen = 2
  OpNames = {"Init", "CodeSome", "CodeAll", "Update", "End", "StrToFilters", "PropsDecode", "BlockHeaderDecode",
    "FilterFlagsDecode", "FiltersFree", "FiltersCopy", "StrFromFilters", "StrListFilters", "FreeStr", "IndexInit",
    "IndexBufferDecode", "IndexAppend", "IndexEnd", "IndexCat", "IndexDup", "IndexHashInit", "IndexHashEnd", "OneShot"}
+ SameKind = FALSE
 ACTION_CONSTRAINT Emit
 CHECK_DEADLOCK FALSE
